@@ -33,6 +33,12 @@ def main(tier, replay):
     cov.update(obligations=gate["obligations"], discharged=gate["discharged"], theorems=gate["theorems"],
                axioms={k: a for k, a in gate["axioms"].items() if a})
     proof_broken = not gate["ok"]
+    if tier == "thorough" and gate["ok"]:
+        okc, outc = vlib.coqchk(["Verif.Latch.Props"])
+        cov["coqchk"] = "ok" if okc else outc[-300:]
+        if not okc:
+            proof_broken = True
+            gate["problems"].append("coqchk failed: " + outc[-300:])
     env = vlib.goenv(); env["VERIF_SEED"] = str(vlib.SEED); env["VERIF_TIER"] = tier
     okm, modelrun = vlib.build_model("Latch")
     okg, exe = vlib.go_build("latch")
